@@ -75,7 +75,10 @@ Body(c, blocks, bpg) ==
        gdc   == CeilDiv(blocks - first, bpg)
        dpb   == c.bs \div (IF c.is64 THEN 64 ELSE 32)
        descb == CeilDiv(gdc, dpb)
-       inodes == IF c.ninodes # 0 THEN c.ninodes ELSE (c.blocks * c.bs) \div c.iratio   \* mke2fs passes s_inodes_count computed from the *requested* size (or -N)
+       \* mke2fs passes s_inodes_count computed from the *requested* size (or -N); when that is 0 (size below one inode_ratio, e.g.
+       \* -T largefile on a tiny device) set_field() falls back to the library default: one inode per 4 KiB of the CURRENT block count
+       inodesp == IF c.ninodes # 0 THEN c.ninodes ELSE (c.blocks * c.bs) \div c.iratio
+       inodes == IF inodesp # 0 THEN inodesp ELSE blocks \div (IF c.bs >= 4096 THEN 1 ELSE 4096 \div c.bs)
        ipg0  == CeilDiv(inodes, gdc)
    IN IF gdc = 0 THEN [k |-> "err", err |-> "TOOSMALL"]                  \* "if (fs->group_desc_count == 0) EXT2_ET_TOOSMALL"
       ELSE IF ipg0 > c.bs * 8 THEN [k |-> "ipg"]
